@@ -35,6 +35,7 @@ MODELLED = {
     "murmur": "twmb/murmur3 vs NutsModel/C19/Murmur.lean (tie of the concrete hash instance)",
     "slc.update": "vcr/revocation/statuslist2021_verifier.go update + validate (statuslist_total); Verify's per-entry loop is in the model (statuslist_total) but only sampled on the real code",
     "didkey": "vdr/didkey/resolver.go Resolve: checks between the DID string and the library calls (didkey_total)",
+    "cred.presenter": "vcr/credential util.go ResolveSubjectDID, PresenterIsCredentialSubject and resolver.go PresentationSigner, ParseLDProof on every presentation go-did parses (cred_total, cred_presenter_sound); go-did's SubjectDID / ParseDIDURL / UnmarshalProofValue and crypto.JWTKidAlg are data",
     "httpcache.seq": "http/client/caching.go CachingRoundTripper.RoundTrip → responseCache.get/removeExpiredEntries/insert/pop on sequences of GET round trips (httpcache_make_room_terminates — no fuel —, httpcache_roundtrip_total, httpcache_size_invariant); cachecontrol's verdict and the clock are data",
     "didweb.pct": "vdr/didweb/util.go percentDecodeString + percentDecodeChar + isHex + unhex, output compared byte for byte (didweb_percent_decode_total, _length, _only_allowed)",
     "didweb.unescape": "net/url PathUnescape vs NutsModel/C19/DidWeb.lean pathUnescape (tie of the re-implemented library function)",
@@ -53,6 +54,7 @@ REQUIRED = [
     "iblt_bucket_indices_total", "iblt_bucket_indices_exact", "iblt_insert_delete_total", "iblt_decode_terminates", "iblt_decode_fuel_irrelevant", "iblt_decode_total",
     "iblt_handle_set_total", "iblt_zero_buckets_never_divide", "murmur_chain_short_cycles", "iblt_unbounded_chain_hangs",
     "iblt_small_table_hangs_unfixed", "callback_total_in_handler", "callback_empty_envelope_needs_guard", "statuslist_total", "statuslist_guards_needed", "didkey_total", "callback_standalone_partial", "panic_sites_accounted",
+    "fact_cred", "cred_total", "cred_presenter_sound", "cred_guards_needed",
     "fact_httpcache", "httpcache_make_room_terminates", "httpcache_roundtrip_total", "httpcache_unguarded_loop_spins", "httpcache_size_invariant",
     "fact_doc_unmarshal_guarded", "ambassador_callback_total", "ambassador_callback_rejects", "ambassador_null_guard_needed",
     "fact_didweb", "didweb_percent_decode_total", "didweb_percent_decode_guard_needed", "didweb_percent_decode_length", "didweb_percent_decode_only_allowed",
@@ -104,7 +106,8 @@ def _didweb_oracle(kind, op_text, line, facts):
             return "a document was returned from a URL that does not end in /did.json"
         if not (200 <= h["status"] < 300):
             return "a document was returned for a non-2xx response"
-        if h.get("ct") not in [c.strip('"') for c in facts.get("didwebContentTypes", [])]:
+        # (the expectation is a constant here, NOT the regenerated case list: a widened list must give a concrete replay)
+        if h.get("ct") not in ("application/did+ld+json", "application/did+json", "application/json"):
             return "a document was returned for a content type outside the allow-list"
         if h["nullEntries"]:
             return "a body with null key entries was handed to go-did"
